@@ -19,6 +19,7 @@
 import AdaptixProofs.Lemmas.MorphTrailComplete
 import AdaptixProofs.Lemmas.MorphTrailDisable
 import AdaptixProofs.Lemmas.MorphTrailFirst
+import AdaptixProofs.Lemmas.MorphTrailNodup
 
 namespace Adaptix.Morph.C05
 open Adaptix.Py Adaptix.Morph
@@ -122,6 +123,26 @@ theorem all_complete {W : World} (hW : LeafReportsInput W) (hG : LeafNotGroup W)
     ((reports e).map (fun p => (p.1, p.2.cls))).Perm (Faults W s n T d) :=
   ((faults_load hW hG hN (m := .all) (by simp) s n T d).2 e h).1
 
+/-- the specification names every position at most once: the trails of `Faults` are
+    pairwise distinct for data satisfying the dict invariant (class tables with distinct
+    field names) -/
+theorem faults_trails_distinct {W : World} (hC : FieldNamesDistinct W) {s : Bool} {n : Nat} {T : Ty}
+    {d : Val} (hd : trailWf d = true) :
+    (Faults W s n T d).Pairwise (fun a b => a.1 ≠ b.1) :=
+  faults_distinct hC s n T d hd
+
+/-- **… exactly once**: no two reported errors of an ALL load carry the same absolute
+    trail (with `all_complete`: each fault position is reported once, and only those). -/
+theorem all_exactly_once {W : World} (hW : LeafReportsInput W) (hG : LeafNotGroup W)
+    (hN : NoneLeafSpec W) (hC : FieldNamesDistinct W) {s : Bool} {n : Nat} {T : Ty} {d : Val}
+    {e : LErr} (hd : trailWf d = true) (h : load W ⟨.all, s⟩ n T d = .err e) :
+    (reports e).Pairwise (fun p q => p.1 ≠ q.1) := by
+  have hp := all_complete hW hG hN h
+  have hF := faults_distinct hC s n T d hd
+  have := hF.perm hp.symm (fun hne => Ne.symm hne)
+  exact (List.pairwise_map (f := fun p : List TrailEl × LErr => (p.1, p.2.cls))
+    (R := fun a b => a.1 ≠ b.1)).mp this
+
 /-- a failed ALL load reports at least one error -/
 theorem all_reports_nonempty {W : World} (hW : LeafReportsInput W) (hG : LeafNotGroup W)
     (hN : NoneLeafSpec W) {s : Bool} {n : Nat} {T : Ty} {d : Val} {e : LErr}
@@ -182,6 +203,11 @@ example : LeafNotGroup exW := fun s name d e h => by
   rw [exW_err h]; simp [LErr.leaf, LErr.cls]
 example : NoneLeafSpec exW := fun s d => by
   cases d <;> simp [exW, Val.isNone]
+example : FieldNamesDistinct exW := fun cls fields h => by
+  simp only [exW] at h
+  split at h
+  · cases h; simp
+  · cases h
 
 /-- `list[dict[str, int]]` against `[{"a": "x"}, {"b": None, 3: 4}]`: two bad values and one bad key -/
 def tLD : Ty := .iter .list true (.dict (.scalar "str") (.scalar "int"))
